@@ -23,6 +23,7 @@ type verifGen struct {
 	ended    bool
 	held     []string
 	heldEnd  bool
+	heldPost int // records held after the held disposal record (their emission is unspecified)
 	nextRec  int // 0 LOGIN, 1 event, 2 CRED_DISP, 3 done
 }
 
@@ -61,17 +62,24 @@ func VerifC09Reuse() {
 				g.ended = true
 			}
 		default:
-			g.held = append(g.held, tag)
-			if typ == auparse.AUDIT_CRED_DISP {
-				g.heldEnd = true
+			if g.heldEnd {
+				g.heldPost++ // after the disposal record, while the login is still unknown
+			} else {
+				g.held = append(g.held, tag)
+				if typ == auparse.AUDIT_CRED_DISP {
+					g.heldEnd = true
+				}
 			}
 		}
 		verifrt.Assert("c09.event-noerr", tr.AuditdEvent(ev) == nil)
 		return expect, loose
 	}
+	extraAllowed := 0
 	login := func(g *verifGen) []string {
 		g.loginIn = true
 		var expect []string
+		extraAllowed = g.heldPost
+		g.heldPost = 0
 		if g.opened && !g.correl {
 			g.correl = true
 			expect = g.held
@@ -132,9 +140,12 @@ func VerifC09Reuse() {
 			g = b
 			verifrt.Reach("c09.second-login")
 			expect = login(b)
-		case 4: // a stray late record of the ended session A
-			if !a.ended {
+		case 4: // a late record of session A after its disposal record (ended, or still held)
+			if !a.ended && !(a.heldEnd && !a.correl) {
 				return
+			}
+			if !a.ended {
+				verifrt.Reach("c09.record-held-after-disposal")
 			}
 			g = a
 			expect, loose = event(a, auparse.AUDIT_USER_END, tag)
@@ -152,10 +163,17 @@ func VerifC09Reuse() {
 			}
 			continue
 		}
-		verifrt.Assert("c09.count", len(got) == len(expect))
-		if len(got) != len(expect) {
+		// records held after the disposal record may or may not be released with the flush
+		verifrt.Assert("c09.count", len(got) >= len(expect) && len(got) <= len(expect)+extraAllowed)
+		if len(got) < len(expect) || len(got) > len(expect)+extraAllowed {
 			return
 		}
+		for i := len(expect); i < len(got); i++ {
+			verifrt.Assert("c09.straggler.session", got[i].Metadata.AuditID == g.sid)
+			verifIdentityIs("c09.straggler.identity", got[i], g.k)
+		}
+		extraAllowed = 0
+		got = got[:len(expect)]
 		for i, e := range got {
 			if g == b {
 				verifrt.Reach("c09.second-generation-emitted")
